@@ -32,6 +32,12 @@ SESSIONS = [("/d/f.txt", "a:x,w,q"), ("/d/f.txt", "a:x,x"), ("/d/f.txt", "a:x,w:
             ("/d", "w,a:x,w,x,Q"), ("/d/f.txt", "r,r:/d/nofile,w:/d/sub,w:/d/sub/n,x"),
             ("/d/f.txt", "f:/../outside.txt,w,e:/../outside.txt,r://abs,w:/d/../x,Q"), ("/d/f.txt", "q,w"),
             ("/d/f.txt", "a:1,a:2,W,W:/d/f.txt,e,E,f,x")]
+# RE-ENTRANT masters: valid_read / valid_write call a file efun themselves (consult an access list, log the request)
+# before they answer like <kind>
+POL_NEST = ["nested=[read_file,/a/a,allow]", "nested=[file_size,/d,allow]", "nested=[write_file,/aa,allow]",
+            "nested=[tail,/d/inc.h,echo]", "nested=[read_file,/d/inc.h,deny]", "nested=[read_file,/a/a,fixed,/d/f.txt]",
+            "nested=[read_file,/../outside.txt,allow]", "nested=[file_size,/d/nofile,ro]", "nested=[read_file,/a/a,raise]",
+            "nested=[read_file,/d/f.txt,allow]", "nested=[tail,/a/a,wo]", "nested=[write_file,/aa,odd,neg]"]
 POL_FEW = ["deny", "fixed=[/a/a]", "fixed=[/d]", "fixed=[/../outside.txt]", "fixed=[//nonexistent-c15/x/y]",
            "fixed=[/d/new]", "fixed=[]"]
 INC_BASES = ["x.c", "t/x.c", "t/u/x.c"]
@@ -416,6 +422,13 @@ class C15(Prop):
             mk("ed-%s" % pol, [pl(pol)] + ["fx ed %s %s" % (br(a), br(b)) for a, b in PED])
             for e in EFUN2:
                 mk("%s-%s" % (e, pol), [pl(pol)] + ["fx %s %s %s" % (e, br(a), br(b)) for a, b in pairs])
+        for pol in POL_NEST:
+            mk("nest-1-%s" % pol[8:28], [pl(pol)] + ["fx %s %s" % (e, br(p)) for e in EFUN1 + EFUN1X
+                                                     for p in ["/d/f.txt", "/d/sub", "/../outside.txt", "/d/nofile"]])
+            mk("nest-2-%s" % pol[8:28], [pl(pol)] + ["fx %s %s %s" % (e, br(a), br(b)) for e in EFUN2
+                                                     for a, b in [("/d/f.txt", "/d/new"), ("/d/f.txt", "/d/sub"), ("/d", "/a")]] +
+               ["fx %s %s" % (e, br(p)) for e in EFUNS for p in PSAVE[:5]])
+            mk("nest-ed-%s" % pol[8:28], [pl(pol)] + ["es %s %s" % (br(f), c) for f, c in SESSIONS[:6]])
         for pol in POL_FULL + POL_FEW + ["ro", "wo", "raise", "odd=[neg]", "ABSENT"]:
             for e in EFUN1X:
                 mk("%s-%s" % (e, pol), [pl(pol)] + ["fx %s %s" % (e, br(p)) for p in GD1])
@@ -486,6 +499,12 @@ class C15(Prop):
             s += "/"
         return s
 
+    def rand_nested(self, rng):
+        g = rng.choice(["read_file", "file_size", "tail", "write_file"])
+        p = "/aa" if g == "write_file" else rng.choice(["/a/a", "/d/f.txt", "/d", "/d/inc.h", "/d/nofile", "/../outside.txt", "/aa", "/d/sub"])
+        k = rng.choice(["allow", "allow", "echo", "deny", "ro", "wo", "raise", "fixed,/d/f.txt", "fixed,/../x", "odd,float0"])
+        return "nested=[%s,%s,%s]" % (g, p, k)
+
     def rand_sys_path(self, rng):
         k = rng.below(10)
         if k < 5:
@@ -513,7 +532,8 @@ class C15(Prop):
                     base = rng.choice(INC_BASES + ["a/b/c/d.c", "sub/..x/y.c"])
                     lines.append("uinc1 %s %s" % (br(base), br(nm[:100])))
             elif k == 1:    # efun calls
-                pol = rng.choice(POL_FULL * 3 + POL_FEW + POL_ERR + POL_KIND + ["ABSENT", "fixed=" + br(self.rand_sys_path(rng)),
+                pol = rng.choice(POL_FULL * 3 + POL_FEW + POL_ERR + POL_KIND + POL_NEST + [self.rand_nested(rng)] * 2 +
+                                 ["ABSENT", "fixed=" + br(self.rand_sys_path(rng)),
                                                                      "raiseon=" + br(self.rand_sys_path(rng))])
                 absent = pol == "ABSENT"
                 lines.append(pl(pol))
@@ -543,9 +563,9 @@ class C15(Prop):
                         if len(p) >= 4:
                             lines.append("fx %s %s" % (rng.choice(EFUNS), br(p)))
                     if rng.chance(1, 6) and not absent:
-                        lines.append("policy " + rng.choice(POL_FULL + POL_FEW + POL_ERR))
+                        lines.append("policy " + rng.choice(POL_FULL + POL_FEW + POL_ERR + POL_NEST + [self.rand_nested(rng)]))
             elif k == 2 and rng.chance(1, 2):    # editing sessions
-                pol = rng.choice(POL_FULL + POL_KIND * 2 + POL_FEW + POL_ERR + ["ABSENT"])
+                pol = rng.choice(POL_FULL + POL_KIND * 2 + POL_FEW + POL_ERR + POL_NEST + ["ABSENT"])
                 lines.append(pl(pol))
                 names = ["/d/f.txt", "/d/out", "/d/sub/n", "/d/nofile", "out2", "/d", "/d/../x", "/a/a", "/../outside.txt", "/d/obj.c"]
                 for _ in range(6):
